@@ -1134,19 +1134,46 @@ func C04(c *Ctx) {
 			}
 			return false
 		}
-		for _, e := range gl.Exits() {
+		exits := gl.Exits()
+		sort.Slice(exits, func(i, j int) bool {
+			if exits[i][0].Index != exits[j][0].Index {
+				return exits[i][0].Index < exits[j][0].Index
+			}
+			return exits[i][1].Index < exits[j][1].Index
+		})
+		for _, e := range exits {
 			okExit := false
 			if iff, isIf := e[0].Instrs[len(e[0].Instrs)-1].(*ssa.If); isIf {
 				// the loop's own bound: a comparison of a counter carried by the loop, or the end of a range
-				if bo, isB := iff.Cond.(*ssa.BinOp); isB {
-					for _, x := range []ssa.Value{bo.X, bo.Y} {
+				if bo, isB := iff.Cond.(*ssa.BinOp); isB && (bo.Op == token.LSS || bo.Op == token.GTR || bo.Op == token.LEQ || bo.Op == token.GEQ) {
+					for i, x := range []ssa.Value{bo.X, bo.Y} {
 						if inc, isInc := x.(*ssa.BinOp); isInc && inc.Op == token.ADD {
 							x = inc.X // the range form compares the advanced counter
 						}
-						if ph, isPhi := x.(*ssa.Phi); isPhi && ph.Block() == gl.Header {
-							if bt, isBasic := ph.Type().Underlying().(*types.Basic); isBasic && bt.Info()&types.IsInteger != 0 {
-								okExit = true
+						ph, isPhi := x.(*ssa.Phi)
+						if !isPhi || ph.Block() != gl.Header {
+							continue
+						}
+						if bt, isBasic := ph.Type().Underlying().(*types.Basic); !isBasic || bt.Info()&types.IsInteger == 0 {
+							continue
+						}
+						// ... with the length of a list
+						bound := []ssa.Value{bo.Y, bo.X}[i]
+						isLen := false
+						for _, d := range deepDefs(bound, closure) {
+							cl, isC := d.(*ssa.Call)
+							if !isC {
+								isLen = false
+								break
 							}
+							if bi, isBi := cl.Common().Value.(*ssa.Builtin); !isBi || bi.Name() != "len" {
+								isLen = false
+								break
+							}
+							isLen = true
+						}
+						if isLen {
+							okExit = true
 						}
 					}
 				}
@@ -1167,7 +1194,7 @@ func C04(c *Ctx) {
 			}
 			if !okExit {
 				okGate = false
-				addWhy("the loop that offers the candidates to the guard (" + c.pos(gsite) + ") can end at " + c.P.Pos(e[1].Instrs[0].Pos()) + " although the guard rejected a candidate and others are left: guard bindings used without the non-nil test")
+				addWhy("the loop that offers the candidates to the guard (" + c.pos(gsite) + ") can end at " + c.pos(e[0].Instrs[len(e[0].Instrs)-1]) + " although the guard rejected a candidate and others are left: guard bindings used without the non-nil test")
 			}
 		}
 		// ... and an accepting verdict ends it: from the guard round the loop to the guard again, every way passes a
